@@ -65,8 +65,17 @@ func (it item) String() string {
 // replication factors.
 var metaFinite bool
 
+// shardShaped: CIDs whose recursive pins are built as the shard entries of a
+// sharded add are (type shard, depth 1: held recursively by the daemon).
+var shardShaped = map[string]bool{}
+
 func mkPin(c cid.Cid, loc string, mode api.PinMode) *api.Pin {
 	p := api.PinWithOpts(c, api.PinOptions{Mode: mode, Name: "n-" + loc})
+	if shardShaped[c.String()] && mode == api.PinModeRecursive && (loc == "local" || loc == "everywhere") {
+		p.Type = api.ShardType
+		p.MaxDepth = 1
+		p.Reference = &gen.Cids[9]
+	}
 	switch loc {
 	case "local":
 		p.ReplicationFactorMin, p.ReplicationFactorMax = 1, 1
@@ -112,7 +121,7 @@ func waitIdle(f *fakes.TrackerFixture) bool {
 	return false
 }
 
-const rule = "direct construction on one real stateless tracker: per CID (5 + 1 extra) a pinset entry (absent, local, everywhere, remote, meta; recursive or direct), a daemon entry (absent, recursive, direct, indirect) and an optional last operation produced by really running one track/untrack against a daemon scripted to fail or succeed for that CID, or (one case in three) a pin refused because the one-slot operation queue was full; then every status filter drawn from {undefined, each single status, the two composites, random unions}; oracle: Status(c) and the listing entry agree at class level, both agree with the facts, and a filtered listing equals the unfiltered listing restricted to the filter; non-trivial = at least one direct pin or failed last operation, and a filter other than 'undefined'; distinct by canonical rendering"
+const rule = "direct construction on one real stateless tracker: per CID (5 + 1 extra) a pinset entry (absent, local, everywhere, remote, meta; recursive, direct, or shaped like the shard entry of a sharded add: type shard, depth 1), a daemon entry (absent, recursive, direct, indirect) and an optional last operation produced by really running one track/untrack against a daemon scripted to fail or succeed for that CID, or (one case in three) a pin refused because the one-slot operation queue was full; then every status filter drawn from {undefined, each single status, the two composites, random unions}; oracle: Status(c) and the listing entry agree at class level, both agree with the facts, and a filtered listing equals the unfiltered listing restricted to the filter; non-trivial = at least one direct pin or failed last operation, and a filter other than 'undefined'; distinct by canonical rendering"
 
 func TestLocalViews(t *testing.T) {
 	leg := ev.L("local-views", rule)
@@ -162,6 +171,7 @@ func TestLocalViews(t *testing.T) {
 			it := &item{daemon: api.IPFSPinStatusUnpinned}
 			it.loc = rapid.SampledFrom([]string{"", "", "local", "local", "everywhere", "remote", "meta"}).Draw(t, "loc")
 			it.mode = rapid.SampledFrom([]api.PinMode{api.PinModeRecursive, api.PinModeRecursive, api.PinModeDirect}).Draw(t, "mode")
+			shardShaped[c.String()] = rapid.IntRange(0, 3).Draw(t, "shardShaped") == 0
 			if it.loc == "meta" {
 				it.mode = api.PinModeRecursive
 			}
